@@ -825,8 +825,167 @@ def ref_seed(ctx: Ctx) -> RuleResult:
     return r
 
 
+# --------------------------------------------------------------------------------------------- REF-GETITEM
+def ref_getitem(ctx: Ctx) -> RuleResult:
+    """Indexing a reference yields a NEW reference with the key appended; the receiver's key list is never mutated or shared."""
+    r = RuleResult("REF-GETITEM")
+    gi = ctx.own_method("UsageExecNode", "__getitem__")
+    r.require(gi is not None, "UsageExecNode.__getitem__ not found")
+    kp = gi.node.args.args[1].arg
+    rets = [n for n in iter_own_nodes(gi.node) if isinstance(n, ast.Return) and n.value is not None]
+    r.require(len(rets) == 1, "__getitem__: single return expected")
+    rv = rets[0].value
+    muts = [n for n in iter_own_nodes(gi.node) if isinstance(n, ast.Call) and isinstance(n.func, ast.Attribute)
+            and n.func.attr in ("append", "extend", "insert") and isinstance(n.func.value, ast.Attribute) and n.func.value.attr == "key"]
+    if muts:
+        m = muts[0]
+        tgt = dotted(m.func.value.value)
+        asg = [n for n in iter_own_nodes(gi.node) if isinstance(n, ast.Assign) and dotted(n.targets[0]) == tgt]
+        deep = len(asg) == 1 and isinstance(asg[0].value, ast.Call) and (dotted(asg[0].value.func) or "").split(".")[-1] == "deepcopy" \
+            and dotted(asg[0].value.args[0]) == "self"
+        ok = tgt != "self" and deep and dotted(rv) == tgt and dotted(m.args[0]) == kp
+        r.ob(ok, {"new reference": norm_src(asg[0]) if asg else None, "key appended to": tgt, "returned": norm_src(rv)})
+        if tgt == "self":
+            r.violate("UsageExecNode.__getitem__: appends the key to the receiver itself", gi.loc(m),
+                      "every other use of the same result (whole value, another index) silently becomes an indexed use", norm_src(m))
+        elif not deep:
+            r.violate("UsageExecNode.__getitem__: the new reference shares the receiver's key list", gi.loc(asg[0] if asg else m),
+                      "a shallow copy (or an alias) of a reference shares its key list: appending the new key also changes the "
+                      "reference that was indexed, and every later index accumulates", norm_src(asg[0]) if asg else None)
+        elif not ok:
+            raise Undecided("__getitem__: form not recognised")
+    else:
+        # constructive form: UsageExecNode(self.id, self.key + [key]) / [*self.key, key]
+        ok = isinstance(rv, ast.Call) and len(rv.args) + len(rv.keywords) == 2 and "self.key" in norm_src(rv) and kp in names_in(rv) \
+            and not any(isinstance(x, ast.Attribute) and x.attr == "key" and isinstance(getattr(x, "ctx", None), ast.Store) for x in ast.walk(gi.node))
+        r.ob(ok, {"returned": norm_src(rv)})
+        if not ok:
+            raise Undecided("__getitem__: form not recognised: " + norm_src(rv))
+    # the dataclass is frozen: references are never edited in place elsewhere
+    c = ctx.P.classes[uxn_q(ctx)]
+    frozen = any("frozen=True" in ast.unparse(d) for d in c.node.decorator_list)
+    r.ob(frozen, {"UsageExecNode is a frozen dataclass": frozen})
+    return r
+
+
+# --------------------------------------------------------------------------------------------- REF-RESERVED
+def ref_reserved(ctx: Ctx) -> RuleResult:
+    """The reserved keyword names agree between the tracer (which strips them from kwargs) and the runner (which must not pass them)."""
+    r = RuleResult("REF-RESERVED")
+    consts = [m for m in ctx.P.modules.values() if "RESERVED_KWARGS" in m.globals_]
+    r.require(len(consts) == 1, "RESERVED_KWARGS not found")
+    st = consts[0].globals_["RESERVED_KWARGS"]
+    val = st.value
+    reserved = {dotted(x) for x in (val.elts if isinstance(val, (ast.Tuple, ast.List, ast.Set)) else [])}
+    r.require(len(reserved) >= 3 and None not in reserved, "RESERVED_KWARGS: not a display of names")
+    # tracer: make_kwargs skips exactly the reserved names
+    mk = [f for f in pkg_funcs(ctx) if f.name == "make_kwargs" and f.cls is None]
+    r.require(len(mk) == 1, "make_kwargs not found")
+    skips = [n for n in iter_own_nodes(mk[0].node) if isinstance(n, ast.If) and n.body and isinstance(n.body[0], ast.Continue)]
+    r.require(len(skips) == 1 and isinstance(skips[0].test, ast.Compare) and isinstance(skips[0].test.ops[0], ast.In), "make_kwargs: skip test not found")
+    c = skips[0].test.comparators[0]
+    skipped = {dotted(x) for x in c.elts} if isinstance(c, (ast.List, ast.Tuple, ast.Set)) else ({"RESERVED_KWARGS"} if dotted(c) == "RESERVED_KWARGS" else set())
+    if skipped == {"RESERVED_KWARGS"}:
+        skipped = set(reserved)
+    ok = skipped == reserved
+    r.ob(ok, {"reserved": sorted(reserved), "stripped by the tracer": sorted(skipped)})
+    if not ok:
+        r.violate("make_kwargs: the keyword names stripped at trace time differ from RESERVED_KWARGS", mk[0].loc(skips[0]),
+                  f"names {sorted(reserved ^ skipped)} are reserved on one side only: a reserved keyword is passed on to the user function, "
+                  f"or an ordinary keyword argument is silently dropped", sorted(skipped))
+    # runner: execute filters by RESERVED_KWARGS
+    ex = ctx.method("ExecNode", "execute")
+    flt = [n for n in iter_own_nodes(ex.node) if isinstance(n, ast.DictComp) and n.generators[0].ifs]
+    okf = len(flt) == 1 and norm_src(flt[0].generators[0].ifs[0]).endswith("not in RESERVED_KWARGS")
+    r.ob(okf, {"runner filter": norm_src(flt[0].generators[0].ifs[0]) if flt else None})
+    # each reserved keyword is consumed by the tracer
+    lz = ctx.own_method("LazyExecNode", "__call__")
+    src = ast.unparse(lz.node)
+    for nm in sorted(reserved):
+        used = nm in src or (nm == "ARG_NAME_ACTIVATE" and "make_active" in src)
+        r.ob(used, {"consumed at trace time": nm})
+    return r
+
+
+# --------------------------------------------------------------------------------------------- REF-TRACE
+def ref_trace(ctx: Ctx) -> RuleResult:
+    """Trace-side plumbing: constants become holders carrying their value; positional order kept; unpack_to yields indexed references;
+    the DAG object is built from the recorded tables and the inputs in signature order."""
+    r = RuleResult("REF-TRACE")
+    # make_default_value_uxn
+    md = [f for f in pkg_funcs(ctx) if f.name == "make_default_value_uxn"]
+    r.require(len(md) == 1, "make_default_value_uxn not found")
+    f = md[0]
+    vp = f.node.args.args[2].arg
+    st = [n for n in iter_own_nodes(f.node) if isinstance(n, ast.Assign) and isinstance(n.targets[0], ast.Subscript)]
+    okv = any(dotted(n.value) == vp and norm_src(n.targets[0].slice).endswith(".id") for n in st)
+    okn = any(norm_src(n.targets[0].slice).endswith(".id") and dotted(n.value) == dotted(n.targets[0].slice.value) for n in st
+              if isinstance(n.targets[0].slice, ast.Attribute))
+    r.ob(okv and okn, {"constant holder stores its value under its own id": okv, "holder registered": okn})
+    if not okv:
+        r.violate("make_default_value_uxn: the constant is not stored under the holder's id", f.loc(), "", None)
+    # make_args keeps order, replaces only non-references
+    ma = [g for g in pkg_funcs(ctx) if g.name == "make_args" and g.cls is None]
+    r.require(len(ma) == 1, "make_args not found")
+    g = ma[0]
+    loop = [n for n in g.node.body if isinstance(n, ast.For)]
+    r.require(len(loop) == 1 and isinstance(loop[0].iter, ast.Call) and dotted(loop[0].iter.func) == "enumerate", "make_args: enumerate loop not found")
+    iv, av = [dotted(x) for x in loop[0].target.elts]
+    cond = [n for n in loop[0].body if isinstance(n, ast.If)]
+    okc = len(cond) == 1 and norm_src(cond[0].test) == f"not isinstance({av}, UsageExecNode)"
+    mk = [n for n in ast.walk(loop[0]) if isinstance(n, ast.Call) and dotted(n.func) == "make_default_value_uxn"]
+    oki = len(mk) == 1 and len(mk[0].args) == 3 and dotted(mk[0].args[1]) == iv and dotted(mk[0].args[2]) == av
+    app = [n for n in loop[0].body if isinstance(n, ast.Expr) and isinstance(n.value, ast.Call) and isinstance(n.value.func, ast.Attribute)
+           and n.value.func.attr == "append" and dotted(n.value.args[0]) == av]
+    r.ob(okc and oki and len(app) == 1, {"make_args": "constants -> holders keyed by position; appended in call order"})
+    if cond and not okc:
+        r.violate("make_args: the test deciding 'constant or reference' changed", g.loc(cond[0]), "", norm_src(cond[0].test))
+    if mk and not oki:
+        r.violate("make_args: the constant holder is not keyed by the argument's own position / value", g.loc(mk[0]),
+                  "two constants of one call would share a holder or carry the wrong value", norm_src(mk[0]))
+    if not app:
+        r.violate("make_args: arguments are not appended in call order", g.loc(loop[0]), "", None)
+    # unpack_to
+    ux = ctx.own_method("LazyExecNode", "_usage_exec_node")
+    r.require(ux is not None, "_usage_exec_node not found")
+    rets = [n for n in iter_own_nodes(ux.node) if isinstance(n, ast.Return)]
+    gen = [x for n in rets for x in ast.walk(n) if isinstance(x, ast.GeneratorExp)]
+    oku = len(gen) == 1 and norm_src(gen[0].generators[0].iter) == "range(self.unpack_to)" and \
+        norm_src(gen[0].elt) in (f"UsageExecNode(self.id, key=[{dotted(gen[0].generators[0].target)}])",
+                                 f"UsageExecNode(self.id, [{dotted(gen[0].generators[0].target)}])")
+    r.ob(oku, {"unpack_to": norm_src(gen[0].elt) if gen else None})
+    if gen and not oku:
+        r.violate("LazyExecNode._usage_exec_node: unpacked references are not (id, [0]), (id, [1]), ...", ux.loc(gen[0]),
+                  "each unpacked name must index its own position of the result", norm_src(gen[0]))
+    # make_dag: the DAG is built from the recorded tables, inputs in signature order
+    mdg = [h for h in pkg_funcs(ctx) if h.name == "make_dag"]
+    r.require(len(mdg) == 1, "make_dag not found")
+    h = mdg[0]
+    ctors = [n for n in iter_own_nodes(h.node) if isinstance(n, ast.Call) and dotted(n.func) in ("DAG", "AsyncDAG")]
+    r.require(len(ctors) == 2, "make_dag: DAG / AsyncDAG constructions not found")
+    kws = [{k.arg: norm_src(k.value) for k in c.keywords} for c in ctors]
+    same = kws[0] == kws[1]
+    r.ob(same, {"DAG and AsyncDAG built from the same arguments": same})
+    if not same:
+        r.violate("make_dag: DAG and AsyncDAG are built from different arguments", h.loc(ctors[0]), "", kws)
+    ok_tbl = kws[0].get("results", "").endswith("results") and kws[0].get("exec_nodes", "").endswith("exec_nodes")
+    r.ob(ok_tbl, {"tables": {k: kws[0].get(k) for k in ("results", "exec_nodes", "input_uxns", "return_uxns", "max_concurrency")}})
+    call = [n for n in iter_own_nodes(h.node) if isinstance(n, ast.Call) and dotted(n.func) == h.node.args.args[0].arg]
+    okd = len(call) == 1 and len(call[0].args) == 1 and isinstance(call[0].args[0], ast.Starred) and \
+        dotted(call[0].args[0].value) == kws[0].get("input_uxns")
+    r.ob(okd, {"describing function called with the input references": okd})
+    if call and not okd:
+        r.violate("make_dag: the describing function is not called with the DAG's input references", h.loc(call[0]), "", norm_src(call[0]))
+    mc = kws[0].get("max_concurrency")
+    okm = mc == h.node.args.args[1].arg
+    r.ob(okm, {"max_concurrency forwarded": mc})
+    if not okm:
+        r.violate("make_dag: max_concurrency of the decorator is not forwarded to the DAG", h.loc(ctors[0]), "", mc)
+    return r
+
+
 RULES = {
     "REF-DEREF": ref_deref, "REF-KEY": ref_key, "REF-FIELDS": ref_fields, "REF-ASDICT": ref_asdict, "REF-MAT": ref_mat,
     "REF-SHAPE": ref_shape, "REF-OPS": ref_ops, "REF-NI": ref_ni, "REF-ACTIVE-BUILD": ref_active_build,
-    "REF-FLAGPRED": ref_flagpred, "REF-UNIQ": ref_uniq, "REF-PREFIX": ref_prefix, "REF-SEED": ref_seed,
+    "REF-FLAGPRED": ref_flagpred, "REF-UNIQ": ref_uniq, "REF-PREFIX": ref_prefix, "REF-SEED": ref_seed, "REF-GETITEM": ref_getitem, "REF-RESERVED": ref_reserved, "REF-TRACE": ref_trace,
 }
